@@ -92,6 +92,10 @@ func goHash(a uint64) func() hash.Hash {
 func run(line string) (out string) {
 	defer func() {
 		if r := recover(); r != nil {
+			if r == "unavailable" { // a stage-level case, and the harness was built without the repository's hooks
+				out = "unavailable"
+				return
+			}
 			if os.Getenv("HARNESS_DEBUG") != "" {
 				fmt.Fprintln(os.Stderr, "panic:", r)
 			}
@@ -117,21 +121,21 @@ func run(line string) (out string) {
 	case "vocra":
 		return verdict(otp.ValidateOCRA(string(unhx(f[1])), string(unhx(f[2])), parseSuite(f[3]), parseInput(f[4])))
 	case "d4226":
-		return strOrErr(otp.VerifDeriveRFC4226(unhx(f[1]), u64(f[2]), int(i64(f[3])), otp.Algorithm(u64(f[4]))))
+		return strOrErr(hkDerive4226(unhx(f[1]), u64(f[2]), int(i64(f[3])), otp.Algorithm(u64(f[4]))))
 	case "d6287":
-		return strOrErr(otp.VerifDeriveRFC6287(unhx(f[1]), parseSuite(f[2]), parseInput(f[3])))
+		return strOrErr(hkDerive6287(unhx(f[1]), parseSuite(f[2]), parseInput(f[3])))
 	case "trunc":
-		return okNum(uint64(otp.VerifTruncate(unhx(f[1]), u64(f[2]))))
+		return okNum(uint64(hkTruncate(unhx(f[1]), u64(f[2]))))
 	case "short":
-		return okStr(otp.VerifShortDigit(uint32(u64(f[1])), int(i64(f[2]))))
+		return okStr(hkShortDigit(uint32(u64(f[1])), int(i64(f[2]))))
 	case "long":
-		return okStr(otp.VerifLongDigit(uint32(u64(f[1])), int(i64(f[2]))))
+		return okStr(hkLongDigit(uint32(u64(f[1])), int(i64(f[2]))))
 	case "fmtdec":
-		return okStr(otp.VerifFormatDecimal(uint32(u64(f[1])), int(i64(f[2]))))
+		return okStr(hkFormatDecimal(uint32(u64(f[1])), int(i64(f[2]))))
 	case "padb":
-		return okBytes(otp.VerifPadBytes(unhx(f[1]), int(i64(f[2]))))
+		return okBytes(hkPadBytes(unhx(f[1]), int(i64(f[2]))))
 	case "mod10":
-		return okNum(otp.VerifMod10()[i64(f[1])])
+		return okNum(hkMod10()[i64(f[1])])
 	case "hmac": // Go's crypto/hmac, to validate the model's executable HMAC
 		m := hmac.New(goHash(u64(f[1])), unhx(f[2]))
 		m.Write(unhx(f[3]))
